@@ -348,6 +348,133 @@ pub fn random_kinds_project(idx: usize, seed: u64) -> Project {
     Project { id: format!("kinds-{:03}", idx), kind: "random-kinds", files, tags }
 }
 
+// ------------------------------------------------------------------------------------------------
+// the per-file import rule and the other diagnostics produced before the typer
+
+/// provider package: one of every kind of item
+const SHAPE: &str = "package Shape\n\nstruct Pt {\n    x: int32,\n    y: int32,\n}\n\nenum E {\n    A,\n    B(int32),\n}\n\ntrait Tr {\n    fn m(Self) -> int32;\n}\n\nimpl Tr for Pt {\n    fn m(self: Pt) -> int32 {\n        self.x + self.y\n    }\n}\n\nfn f(a: int32) -> int32 {\n    a + 1\n}\n";
+
+/// helpers that live in the file that DOES import Shape, so that the other file can receive and pass on
+/// Shape values without naming the package
+const HELPERS: &str = "fn mkPt() -> Shape::Pt {\n    Shape::Pt { x: 3, y: 4 }\n}\n\nfn mkE() -> Shape::E {\n    Shape::E::B(5)\n}\n\nfn usePt(p: Shape::Pt) -> int32 {\n    p.x * 10 + p.y\n}\n\nfn useE(e: Shape::E) -> int32 {\n    match e {\n        Shape::E::A => 0,\n        Shape::E::B(n) => n,\n    }\n}\n\nfn mkDyn() -> dyn Shape::Tr {\n    let d: dyn Shape::Tr = Shape::Pt { x: 3, y: 4 };\n    d\n}\n\nstruct Loc {\n    v: int32,\n}\n\ntrait LTr {\n    fn k(Self) -> int32;\n}\n";
+
+/// every form in which a file can mention an item of another package; each defines `fn b() -> int32`
+const USE_FORMS: &[(&str, &str)] = &[
+    ("call", "fn b() -> int32 {\n    Shape::f(1)\n}\n"),
+    ("type-in-signature", "fn g(p: Shape::Pt) -> int32 {\n    7\n}\n\nfn b() -> int32 {\n    g(mkPt())\n}\n"),
+    ("type-in-return", "fn g() -> Shape::Pt {\n    mkPt()\n}\n\nfn b() -> int32 {\n    usePt(g())\n}\n"),
+    ("let-annotation", "fn b() -> int32 {\n    let p: Shape::Pt = mkPt();\n    usePt(p)\n}\n"),
+    ("field-type", "struct W {\n    p: Shape::Pt,\n}\n\nfn b() -> int32 {\n    let w = W { p: mkPt() };\n    usePt(w.p)\n}\n"),
+    ("variant-payload-type", "enum V {\n    N,\n    P(Shape::Pt),\n}\n\nfn b() -> int32 {\n    match V::P(mkPt()) {\n        V::N => 0,\n        V::P(p) => usePt(p),\n    }\n}\n"),
+    ("struct-literal", "fn b() -> int32 {\n    usePt(Shape::Pt { x: 1, y: 2 })\n}\n"),
+    ("struct-pattern", "fn b() -> int32 {\n    let Shape::Pt { x: x, y: y } = mkPt();\n    x + y\n}\n"),
+    ("enum-constructor-expr", "fn b() -> int32 {\n    useE(Shape::E::B(3))\n}\n"),
+    ("enum-constructor-nullary", "fn b() -> int32 {\n    useE(Shape::E::A) + 1\n}\n"),
+    ("enum-constructor-pattern", "fn b() -> int32 {\n    match mkE() {\n        Shape::E::A => 0,\n        Shape::E::B(n) => n,\n    }\n}\n"),
+    ("trait-bound", "fn h[T: Shape::Tr](t: T) -> int32 {\n    9\n}\n\nfn b() -> int32 {\n    h(mkPt())\n}\n"),
+    ("dyn-type", "fn d(x: dyn Shape::Tr) -> int32 {\n    8\n}\n\nfn b() -> int32 {\n    callD()\n}\n"),
+    ("impl-foreign-trait", "impl Shape::Tr for Loc {\n    fn m(self: Loc) -> int32 {\n        self.v\n    }\n}\n\nfn b() -> int32 {\n    6\n}\n"),
+    ("impl-for-foreign-type", "impl LTr for Shape::Pt {\n    fn k(self: Shape::Pt) -> int32 {\n        self.x\n    }\n}\n\nfn b() -> int32 {\n    LTr::k(mkPt())\n}\n"),
+    ("ufcs-trait-method", "fn b() -> int32 {\n    Shape::Tr::m(mkPt())\n}\n"),
+    ("generic-argument", "enum Opt[T] {\n    Non,\n    Som(T),\n}\n\nfn g(o: Opt[Shape::Pt]) -> int32 {\n    match o {\n        Opt::Non => 0,\n        Opt::Som(p) => usePt(p),\n    }\n}\n\nfn b() -> int32 {\n    g(Opt::Som(mkPt()))\n}\n"),
+    ("closure-param-type", "fn b() -> int32 {\n    let c = |p: Shape::Pt| usePt(p);\n    c(mkPt())\n}\n"),
+];
+
+/// for every use form: the using file imports Shape / does not (while its sibling does) / nobody does;
+/// the using package is Main or a library; the using file comes before or after its sibling
+pub fn import_rule_projects() -> Vec<Project> {
+    let mut v = Vec::new();
+    for (form, text) in USE_FORMS {
+        for user in ["Main", "Geo"] {
+            for (variant, b_imports, a_imports) in [("imported", true, true), ("sibling-imports", false, true), ("nobody-imports", false, false)] {
+                for b_first in [false, true] {
+                    if b_first && variant != "sibling-imports" {
+                        continue;
+                    }
+                    let imp = |on: bool| if on { "import Shape\n" } else { "" };
+                    // without any import of Shape the helpers cannot be written: only the use form remains
+                    let helpers = if a_imports { HELPERS.to_string() } else { "struct Loc {\n    v: int32,\n}\n\ntrait LTr {\n    fn k(Self) -> int32;\n}\n".to_string() };
+                    let helpers = if *form == "dyn-type" && a_imports {
+                        format!("{}\nfn callD() -> int32 {{\n    let x: dyn Shape::Tr = Shape::Pt {{ x: 3, y: 4 }};\n    d(x)\n}}\n", helpers)
+                    } else {
+                        helpers
+                    };
+                    let file_a = format!("package {user}\n{}\n{}", imp(a_imports), helpers);
+                    let file_b = format!("package {user}\n{}\n{}", imp(b_imports), text);
+                    let mut files: Vec<(String, String)> = vec![("Shape/lib.gom".to_string(), SHAPE.to_string())];
+                    let (an, bn) = if b_first { ("m.gom", "b.gom") } else { ("a.gom", "z.gom") };
+                    if user == "Main" {
+                        files.push(("main.gom".to_string(), format!("package Main\n\nfn main() {{\n    string_println(int32_to_string(b()));\n}}\n")));
+                        files.push((an.to_string(), file_a));
+                        files.push((bn.to_string(), file_b));
+                    } else {
+                        files.push(("main.gom".to_string(), "package Main\nimport Geo\n\nfn main() {\n    string_println(int32_to_string(Geo::b()));\n}\n".to_string()));
+                        files.push((format!("Geo/{}", an), file_a));
+                        files.push((format!("Geo/{}", bn), file_b));
+                    }
+                    v.push(Project {
+                        id: format!("imp-{}-{}-{}{}", form, user, variant, if b_first { "-first" } else { "" }),
+                        kind: "import-rule",
+                        files,
+                        tags: vec![format!("use={}", form), format!("user={}", user), format!("file-imports={}", variant)],
+                    });
+                }
+            }
+        }
+    }
+    v
+}
+
+/// diagnostics of the stages before the typer (parser, AST lowering, derive), in the entry file, in a
+/// sibling file of Main and in a library file
+pub fn early_diagnostic_projects() -> Vec<Project> {
+    let bad: &[(&str, &str)] = &[
+        ("parse-error", "fn broken( -> int32 {\n    1\n}\n"),
+        ("parse-error-expr", "fn broken() -> int32 {\n    1 +\n}\n"),
+        ("lone-surrogate-escape", "fn broken() -> string {\n    \"\\ud800\"\n}\n"),
+        ("literal-applied", "fn broken() -> int32 {\n    1(2)\n}\n"),
+        ("string-applied", "fn broken() -> int32 {\n    \"s\"(2)\n}\n"),
+        ("extern-language", "extern \"c\" \"m\" sin(x: float64) -> float64\n"),
+        ("derive-generic", "#[derive(ToJson)]\nstruct G[T] {\n    x: T,\n}\n"),
+        ("derive-generic-enum", "#[derive(ToString)]\nenum G[T] {\n    A(T),\n}\n"),
+        ("trait-without-methods", "trait Empty {\n}\n"),
+        ("enum-without-variants", "enum Never {\n}\n"),
+        ("array-length-overflow", "fn broken(a: [int32; 99999999999999999999999]) -> int32 {\n    1\n}\n"),
+        ("tuple-index", "fn broken(t: (int32, int32)) -> int32 {\n    t.99999999999999999999999\n}\n"),
+        ("duplicate-pattern-binding", "fn broken(t: (int32, int32)) -> int32 {\n    let (a, a) = t;\n    a\n}\n"),
+        ("duplicate-parameter", "fn broken(a: int32, a: int32) -> int32 {\n    a\n}\n"),
+        ("unknown-attribute", "#[frobnicate]\nfn broken() -> int32 {\n    1\n}\n"),
+        ("unknown-derive", "#[derive(Nope)]\nstruct D {\n    x: int32,\n}\n"),
+        ("int-literal-overflow", "fn broken() -> int32 {\n    99999999999999999999999\n}\n"),
+        ("float-literal-overflow", "fn broken() -> float32 {\n    99999999999999999999999999999999999999999999999999.0f32\n}\n"),
+    ];
+    let mut v = Vec::new();
+    for (name, text) in bad {
+        for place in ["entry", "main-sibling", "library", "library-sibling"] {
+            let mut files: Vec<(String, String)> = Vec::new();
+            let main_ok = "fn main() {\n    string_println(\"m\");\n}\n";
+            match place {
+                "entry" => files.push(("main.gom".to_string(), format!("package Main\n\n{}\n{}", text, main_ok))),
+                "main-sibling" => {
+                    files.push(("main.gom".to_string(), format!("package Main\n\n{}", main_ok)));
+                    files.push(("z.gom".to_string(), format!("package Main\n\n{}", text)));
+                }
+                "library" => {
+                    files.push(("main.gom".to_string(), format!("package Main\nimport Lib\n\nfn main() {{\n    string_println(int32_to_string(Lib::ok()));\n}}\n")));
+                    files.push(("Lib/lib.gom".to_string(), format!("package Lib\n\nfn ok() -> int32 {{\n    1\n}}\n\n{}", text)));
+                }
+                _ => {
+                    files.push(("main.gom".to_string(), format!("package Main\nimport Lib\n\nfn main() {{\n    string_println(int32_to_string(Lib::ok()));\n}}\n")));
+                    files.push(("Lib/a.gom".to_string(), "package Lib\n\nfn ok() -> int32 {\n    1\n}\n".to_string()));
+                    files.push(("Lib/b.gom".to_string(), format!("package Lib\n\n{}", text)));
+                }
+            }
+            v.push(Project { id: format!("early-{}-{}", name, place), kind: "early-diagnostic", files, tags: vec![format!("early={}", name), format!("place={}", place)] });
+        }
+    }
+    v
+}
+
 /// witness projects kept under corpus/C14/<name>/ (a directory per project)
 pub fn corpus_witnesses() -> Vec<Project> {
     let mut v = Vec::new();
@@ -592,6 +719,8 @@ pub fn main(args: &util::Args) {
     let mut projects: Vec<Project> = c13::corpus_projects(true, &mut Rng::new(1)).into_iter().filter(|p| p.kind == "corpus-package").collect();
     projects.extend(templates(quick));
     projects.extend(corpus_witnesses());
+    projects.extend(import_rule_projects());
+    projects.extend(early_diagnostic_projects());
     for i in 0..(if quick { 16 } else { 120 }) {
         projects.push(random_kinds_project(i, args.seed));
     }
